@@ -457,15 +457,25 @@ def _run_check(mod, modname, prop_id, tier, seed, jobs, scratch, t0,
                     echoes.append(res[1])
                 continue
             results[i] = res
+    harness_failed = False
     if errors:
+        # a unit whose own machinery failed (e.g. a seam/real-environment
+        # mismatch) makes the run incomplete: it can never end with exit 0.
+        # Violations found by the other units are still classified and
+        # confirmed - a confirmed violation decides (exit 1), otherwise the
+        # run ends with exit 2.
         errors.sort()
         print("HARNESS-ERROR property=%s unit=%d\n%s"
               % (prop_id, errors[0][0], errors[0][1]))
-        return 2
+        harness_failed = True
+        if not any(r is not None and r["violations"] for r in results):
+            return 2
 
     tot = empty_result()
     known_counts = {}
     for res in results:          # index order: deterministic aggregation
+        if res is None:
+            continue
         for k in ("evaluations", "nontrivial", "violation_count", "states",
                   "transitions", "traces"):
             tot[k] += res[k]
@@ -579,7 +589,8 @@ def _run_check(mod, modname, prop_id, tier, seed, jobs, scratch, t0,
         "distinct_nontrivial": nontrivial,
         "rule": mod.RULE,
         "samples": tot["samples"] or [units[0] if units else None],
-        "exhaustive": (not tot["capped"]) and only_unit is None,
+        "exhaustive": (not tot["capped"]) and only_unit is None
+        and not harness_failed,
         "units": n_units,
         "outcome_classes": dict(sorted(tot["classes"].items())),
         "known_finding_witnesses": known_counts,
@@ -652,6 +663,8 @@ def _run_check(mod, modname, prop_id, tier, seed, jobs, scratch, t0,
         exit_code = 2
     for ln in lines:
         print(ln)
+    if harness_failed and exit_code == 0:
+        exit_code = 2
     return exit_code
 
 
